@@ -3382,6 +3382,11 @@ class Wallet(object):
             'txid': txid,
             'value': value
         }
+        # File the output under the account and network of the key which owns the address
+        key = self.session.query(DbKey).filter_by(wallet_id=self.wallet_id, address=address).scalar()
+        if key:
+            return self.utxos_update(account_id=key.account_id, networks=key.network_name, utxos=[utxo],
+                                     rescan_all=False)
         return self.utxos_update(utxos=[utxo], rescan_all=False)
 
     def utxo_last(self, address):
